@@ -77,6 +77,8 @@ static int c09_mutex_destroy(pthread_mutex_t *m);
 #error "define CS (critical section name) before including pool_model.h"
 #endif
 #define INV_NAME "C09." CS ".inv"
+/* a != b, phrased with the order atoms the code itself uses */
+#define C09_NEQ(a, b) (((a) < (b)) || ((b) < (a)))
 
 #ifndef KQ
 #define KQ 2
@@ -99,7 +101,11 @@ static int c09_mutex_destroy(pthread_mutex_t *m);
 #ifndef MAXWAIT
 #define MAXWAIT 1	/* cond_wait returns explored per acquisition chain */
 #endif
-#define LMAX (KQ + KD + KS + KR + 4)	/* more nodes than any list can have */
+/* longest list a section can produce from a state within the capacities */
+#define QMAX (KQ + 1)
+#define DMAX (KD + 1)
+#define SMAX (KS + KD + 1)
+#define RMAX (KR + 1)
 
 typedef struct {
 	thread_pool_impl_t p;
@@ -109,10 +115,44 @@ typedef struct {
 static c09_pool_t g_pw;
 #define POOL (&g_pw.p)
 
-static work_item_t g_qn[NGEN][KQ];	/* queue nodes per generation */
-static work_item_t g_dn[NGEN][KD];	/* done nodes per generation */
-static work_item_t g_sn[KS];		/* safe_done nodes */
-static work_item_t g_rn[KR];		/* recycle nodes */
+/*
+ * List nodes are DISTINCT objects (not array elements): a pointer to a node is
+ * then an object identity with offset 0, which keeps CBMC's dereferences cheap.
+ * Capacity: 4 generations x 4 nodes for queue/done, 4 for safe_done/recycle.
+ */
+#define C09_N4(p) static work_item_t p##0, p##1, p##2, p##3
+C09_N4(g_q0_); C09_N4(g_q1_); C09_N4(g_q2_); C09_N4(g_q3_);
+C09_N4(g_d0_); C09_N4(g_d1_); C09_N4(g_d2_); C09_N4(g_d3_);
+C09_N4(g_s_); C09_N4(g_r_);
+
+#define C09_SW4(p, i) \
+	switch (i) { case 0: return &p##0; case 1: return &p##1; \
+		     case 2: return &p##2; case 3: return &p##3; default: return NULL; }
+
+static work_item_t *QN(unsigned g, size_t i)
+{
+	switch (g) {
+	case 0: C09_SW4(g_q0_, i)
+	case 1: C09_SW4(g_q1_, i)
+	case 2: C09_SW4(g_q2_, i)
+	case 3: C09_SW4(g_q3_, i)
+	default: return NULL;
+	}
+}
+
+static work_item_t *DN(unsigned g, size_t i)
+{
+	switch (g) {
+	case 0: C09_SW4(g_d0_, i)
+	case 1: C09_SW4(g_d1_, i)
+	case 2: C09_SW4(g_d2_, i)
+	case 3: C09_SW4(g_d3_, i)
+	default: return NULL;
+	}
+}
+
+static work_item_t *SN(size_t i) { C09_SW4(g_s_, i) }
+static work_item_t *RN(size_t i) { C09_SW4(g_r_, i) }
 
 /* ------------------------------------------------------------ ghost state */
 static int g_locked;		/* this thread holds pool->mtx */
@@ -123,49 +163,38 @@ static unsigned g_gen;		/* acquisitions so far */
 static unsigned g_waits;	/* cond_wait calls so far */
 static unsigned g_locks, g_unlocks;
 
-static work_item_t *g_held;	/* item in THIS worker's hands (or NULL) */
-static size_t g_ow[NW];		/* tickets in the other workers' hands */
+static work_item_t *g_held;	/* item in THIS thread's hands (or NULL) */
+static size_t g_ow[NW];		/* tickets in the (other) workers' hands */
 static size_t g_ow_n;
 static size_t g_wt;		/* witness ticket ... */
 static void *g_wd;		/* ... and the data submitted with it */
 
 /* snapshot of the shared state at the last acquisition */
 static size_t s_qn, s_dn;
-static work_item_t *s_q[KQ + 1], *s_d[KD + 1];
+static work_item_t *s_q[4], *s_d[4];
 static int s_status;
 static size_t s_nt, s_ndt;
 
 static void c09_on_release(int is_wait, pthread_cond_t *cond);
 
 /* ------------------------------------------------------------ list helpers */
-/* length of a NULL-terminated list, LMAX+1 if it does not end within LMAX */
-static size_t c09_len(const work_item_t *l)
+/* length of a NULL-terminated list, max+1 if it does not end within max */
+static size_t c09_len(const work_item_t *l, size_t max)
 {
 	size_t n = 0;
 
-	while (l != NULL && n <= LMAX) {
+	while (l != NULL && n <= max) {
 		l = l->next;
 		++n;
 	}
 	return n;
 }
 
-static const work_item_t *c09_nth(const work_item_t *l, size_t k)
+static int c09_has(const work_item_t *l, const work_item_t *x, size_t max)
 {
 	size_t n = 0;
 
-	while (l != NULL && n < k && n <= LMAX) {
-		l = l->next;
-		++n;
-	}
-	return l;
-}
-
-static int c09_has(const work_item_t *l, const work_item_t *x)
-{
-	size_t n = 0;
-
-	while (l != NULL && n <= LMAX) {
+	while (l != NULL && n <= max) {
 		if (l == x)
 			return 1;
 		l = l->next;
@@ -174,12 +203,12 @@ static int c09_has(const work_item_t *l, const work_item_t *x)
 	return 0;
 }
 
-static int c09_has_ticket(const work_item_t *l, size_t t)
+static int c09_has_ticket(const work_item_t *l, size_t t, size_t max)
 {
 	size_t n = 0;
 
-	while (l != NULL && n <= LMAX) {
-		if (l->ticket_number == t)
+	while (l != NULL && n <= max) {
+		if (!C09_NEQ(l->ticket_number, t))
 			return 1;
 		l = l->next;
 		++n;
@@ -187,11 +216,11 @@ static int c09_has_ticket(const work_item_t *l, size_t t)
 	return 0;
 }
 
-static int c09_strictly_increasing(const work_item_t *l)
+static int c09_strictly_increasing(const work_item_t *l, size_t max)
 {
 	size_t n = 0;
 
-	while (l != NULL && l->next != NULL && n <= LMAX) {
+	while (l != NULL && l->next != NULL && n <= max) {
 		if (!(l->ticket_number < l->next->ticket_number))
 			return 0;
 		l = l->next;
@@ -200,24 +229,13 @@ static int c09_strictly_increasing(const work_item_t *l)
 	return 1;
 }
 
-static const work_item_t *c09_last(const work_item_t *l)
+/* tickets are first, first+1, ... */
+static int c09_consecutive_from(const work_item_t *l, size_t first, size_t max)
 {
 	size_t n = 0;
 
-	while (l != NULL && l->next != NULL && n <= LMAX) {
-		l = l->next;
-		++n;
-	}
-	return l;
-}
-
-/* all tickets of l in [lo, hi) */
-static int c09_in_range(const work_item_t *l, size_t lo, size_t hi)
-{
-	size_t n = 0;
-
-	while (l != NULL && n <= LMAX) {
-		if (l->ticket_number < lo || l->ticket_number >= hi)
+	while (l != NULL && n <= max) {
+		if (l->ticket_number != first + n)
 			return 0;
 		l = l->next;
 		++n;
@@ -225,11 +243,36 @@ static int c09_in_range(const work_item_t *l, size_t lo, size_t hi)
 	return 1;
 }
 
-static int c09_witness_ok(const work_item_t *l)
+static const work_item_t *c09_last(const work_item_t *l, size_t max)
 {
 	size_t n = 0;
 
-	while (l != NULL && n <= LMAX) {
+	while (l != NULL && l->next != NULL && n <= max) {
+		l = l->next;
+		++n;
+	}
+	return l;
+}
+
+/* all tickets of l in [lo, hi) */
+static int c09_in_range(const work_item_t *l, size_t lo, size_t hi, size_t max)
+{
+	size_t n = 0;
+
+	while (l != NULL && n <= max) {
+		if (l->ticket_number < lo || !(l->ticket_number < hi))
+			return 0;
+		l = l->next;
+		++n;
+	}
+	return 1;
+}
+
+static int c09_witness_ok(const work_item_t *l, size_t max)
+{
+	size_t n = 0;
+
+	while (l != NULL && n <= max) {
 		if (l->ticket_number == g_wt && l->data != g_wd)
 			return 0;
 		l = l->next;
@@ -238,8 +281,8 @@ static int c09_witness_ok(const work_item_t *l)
 	return 1;
 }
 
-/* opaque user pointers: any address inside a dummy object (the pool never
- * dereferences them; only their identity matters) */
+/* opaque user pointers: any address inside a dummy object or NULL (the pool
+ * never dereferences them; only their identity matters) */
 static char g_blob[64];
 static void *c09_nd_ptr(const char *tag)
 {
@@ -249,77 +292,89 @@ static void *c09_nd_ptr(const char *tag)
 }
 
 /* ------------------------------------------------- INV as an assertion set */
+/*
+ * Written relationally (neighbour tickets differ by one, counts against one
+ * difference) in exactly the shape c09_build_shared() assumes it, so that
+ * the solver never has to re-associate 64-bit sums.
+ */
+static int c09_step_one(const work_item_t *l, size_t max)
+{
+	size_t n = 0;
+
+	while (l != NULL && l->next != NULL && n <= max) {
+		if (l->next->ticket_number != l->ticket_number + 1)
+			return 0;
+		l = l->next;
+		++n;
+	}
+	return 1;
+}
+
 static void c09_check_inv(void)
 {
 	thread_pool_impl_t *pool = POOL;
-	size_t ql = c09_len(pool->queue), dl = c09_len(pool->done);
+	size_t ql = c09_len(pool->queue, QMAX), dl = c09_len(pool->done, DMAX);
 	size_t wl = g_ow_n + (g_held != NULL ? 1 : 0);
-	const work_item_t *qh = pool->queue, *dlast = c09_last(pool->done);
-	size_t i;
+	size_t nt = pool->next_ticket, ndt = pool->next_dequeue_ticket;
+	const work_item_t *qlast = c09_last(pool->queue, QMAX);
+	size_t qfirst = pool->queue != NULL ? pool->queue->ticket_number : nt;
+	size_t i, j;
 
-	VERIF_ASSERT(ql <= LMAX && dl <= LMAX, INV_NAME);
-	VERIF_ASSERT(c09_strictly_increasing(pool->queue), INV_NAME);
-	VERIF_ASSERT(c09_strictly_increasing(pool->done), INV_NAME);
-	VERIF_ASSERT(pool->queue_last == c09_last(pool->queue), INV_NAME);
-	VERIF_ASSERT(pool->next_dequeue_ticket <= pool->next_ticket, INV_NAME);
-	VERIF_ASSERT(c09_in_range(pool->queue, pool->next_dequeue_ticket,
-				  pool->next_ticket), INV_NAME);
-	VERIF_ASSERT(c09_in_range(pool->done, pool->next_dequeue_ticket,
-				  pool->next_ticket), INV_NAME);
-	/* done and W below the queue head; W distinct from done */
-	if (qh != NULL && dlast != NULL)
-		VERIF_ASSERT(dlast->ticket_number < qh->ticket_number, INV_NAME);
+	VERIF_ASSERT(ql <= QMAX && dl <= DMAX, INV_NAME);
+	/* queue = the run of tickets ending at next_ticket - 1 */
+	VERIF_ASSERT(c09_step_one(pool->queue, QMAX), INV_NAME);
+	VERIF_ASSERT(pool->queue_last == qlast, INV_NAME);
+	VERIF_ASSERT(qlast == NULL || qlast->ticket_number + 1 == nt, INV_NAME);
+	VERIF_ASSERT(ndt <= qfirst && qfirst <= nt, INV_NAME);
+	/* done: sorted, below the queue */
+	VERIF_ASSERT(c09_strictly_increasing(pool->done, DMAX), INV_NAME);
+	VERIF_ASSERT(c09_in_range(pool->done, ndt, qfirst, DMAX), INV_NAME);
+	/* in workers' hands: below the queue, not in done, pairwise distinct */
 	for (i = 0; i < NW; ++i) {
 		if (i < g_ow_n) {
-			VERIF_ASSERT(g_ow[i] >= pool->next_dequeue_ticket &&
-				     g_ow[i] < pool->next_ticket, INV_NAME);
-			VERIF_ASSERT(qh == NULL ||
-				     g_ow[i] < qh->ticket_number, INV_NAME);
-			VERIF_ASSERT(!c09_has_ticket(pool->done, g_ow[i]),
+			VERIF_ASSERT(!(g_ow[i] < ndt) && g_ow[i] < qfirst, INV_NAME);
+			VERIF_ASSERT(!c09_has_ticket(pool->done, g_ow[i], DMAX),
 				     INV_NAME);
-		}
-	}
-	if (g_held != NULL) {
-		VERIF_ASSERT(g_held->ticket_number >= pool->next_dequeue_ticket &&
-			     g_held->ticket_number < pool->next_ticket, INV_NAME);
-		VERIF_ASSERT(qh == NULL ||
-			     g_held->ticket_number < qh->ticket_number, INV_NAME);
-		VERIF_ASSERT(!c09_has_ticket(pool->done, g_held->ticket_number),
-			     INV_NAME);
-		VERIF_ASSERT(!c09_has(pool->queue, g_held) &&
-			     !c09_has(pool->done, g_held), INV_NAME);
-		VERIF_ASSERT(g_held->ticket_number != g_wt ||
-			     g_held->data == g_wd, INV_NAME);
-		for (i = 0; i < NW; ++i) {
-			if (i < g_ow_n)
-				VERIF_ASSERT(g_ow[i] != g_held->ticket_number,
+			for (j = 0; j < i; ++j)
+				VERIF_ASSERT(C09_NEQ(g_ow[j], g_ow[i]), INV_NAME);
+			if (g_held != NULL)
+				VERIF_ASSERT(C09_NEQ(g_ow[i], g_held->ticket_number),
 					     INV_NAME);
 		}
 	}
-	VERIF_ASSERT(ql + dl + wl ==
-		     pool->next_ticket - pool->next_dequeue_ticket, INV_NAME);
-	VERIF_ASSERT(c09_witness_ok(pool->queue) && c09_witness_ok(pool->done),
-		     INV_NAME);
+	if (g_held != NULL) {
+		VERIF_ASSERT(!(g_held->ticket_number < ndt) &&
+			     g_held->ticket_number < qfirst, INV_NAME);
+		VERIF_ASSERT(!c09_has_ticket(pool->done, g_held->ticket_number,
+					     DMAX), INV_NAME);
+		VERIF_ASSERT(!c09_has(pool->queue, g_held, QMAX) &&
+			     !c09_has(pool->done, g_held, DMAX), INV_NAME);
+		VERIF_ASSERT(g_held->ticket_number != g_wt ||
+			     g_held->data == g_wd, INV_NAME);
+	}
+	/* no gaps: every ticket in [ndt, qfirst) is in done or in a worker's
+	 * hands (distinct tickets in a range of exactly their number) */
+	VERIF_ASSERT(dl + wl == qfirst - ndt, INV_NAME);
+	VERIF_ASSERT(c09_witness_ok(pool->queue, QMAX) &&
+		     c09_witness_ok(pool->done, DMAX), INV_NAME);
 }
 
 /* M-INV, the part owned by the submitting thread */
 static void c09_check_main_inv(void)
 {
 	thread_pool_impl_t *pool = POOL;
-	size_t sl = c09_len(pool->safe_done), rl = c09_len(pool->recycle);
-	const work_item_t *it = pool->safe_done;
-	size_t i;
+	size_t sl = c09_len(pool->safe_done, SMAX);
+	size_t rl = c09_len(pool->recycle, RMAX);
 
-	VERIF_ASSERT(sl <= LMAX && rl <= LMAX, INV_NAME);
-	VERIF_ASSERT(pool->safe_done_last == c09_last(pool->safe_done), INV_NAME);
+	VERIF_ASSERT(sl <= SMAX && rl <= RMAX, INV_NAME);
+	VERIF_ASSERT(pool->safe_done_last == c09_last(pool->safe_done, SMAX),
+		     INV_NAME);
 	VERIF_ASSERT(pool->next_dequeue_ticket <= pool->next_ticket &&
 		     sl <= pool->next_dequeue_ticket, INV_NAME);
-	for (i = 0; i <= LMAX && it != NULL; ++i, it = it->next) {
-		VERIF_ASSERT(it->ticket_number ==
-			     pool->next_dequeue_ticket - sl + i, INV_NAME);
-		VERIF_ASSERT(it->ticket_number != g_wt || it->data == g_wd,
-			     INV_NAME);
-	}
+	VERIF_ASSERT(c09_consecutive_from(pool->safe_done,
+					  pool->next_dequeue_ticket - sl, SMAX),
+		     INV_NAME);
+	VERIF_ASSERT(c09_witness_ok(pool->safe_done, SMAX), INV_NAME);
 	VERIF_ASSERT(pool->item_count ==
 		     pool->next_ticket - pool->next_dequeue_ticket + sl, INV_NAME);
 }
@@ -342,8 +397,8 @@ static void c09_build_main(void)
 	r = RLEN;
 #endif
 	VERIF_ASSUME(s <= KS && r <= KR);
-	/* fewer than 2^64 - 16 submissions in the life of a pool */
-	VERIF_ASSUME(ndt <= nt && nt < (SIZE_MAX - 16) && s <= ndt);
+	/* fewer than 2^64 - 64 submissions in the life of a pool */
+	VERIF_ASSUME(ndt <= nt && nt < SIZE_MAX - 64 && s <= ndt);
 
 	g_wt = verif_nd_size("witness_ticket");
 	g_wd = c09_nd_ptr("witness_data");
@@ -353,44 +408,51 @@ static void c09_build_main(void)
 	pool->num_workers = NW;
 
 	for (i = 0; i < KS; ++i) {
-		g_sn[i].ticket_number = ndt - s + i;
-		g_sn[i].data = c09_nd_ptr("safe.data");
-		g_sn[i].next = (i + 1 < s) ? &g_sn[i + 1] : NULL;
+		work_item_t *n = SN(i);
+
+		n->ticket_number = ndt - s + i;
+		n->data = c09_nd_ptr("safe.data");
+		n->next = (i + 1 < s) ? SN(i + 1) : NULL;
 		if (i < s)
-			VERIF_ASSUME(g_sn[i].ticket_number != g_wt ||
-				     g_sn[i].data == g_wd);
+			VERIF_ASSUME(n->ticket_number != g_wt || n->data == g_wd);
 	}
-	pool->safe_done = s > 0 ? &g_sn[0] : NULL;
-	pool->safe_done_last = s > 0 ? &g_sn[s - 1] : NULL;
+	pool->safe_done = s > 0 ? SN(0) : NULL;
+	pool->safe_done_last = s > 0 ? SN(s - 1) : NULL;
 
 	for (i = 0; i < KR; ++i) {
-		g_rn[i].ticket_number = verif_nd_size("recycle.ticket");
-		g_rn[i].data = c09_nd_ptr("recycle.data");
-		g_rn[i].next = (i + 1 < r) ? &g_rn[i + 1] : NULL;
+		work_item_t *n = RN(i);
+
+		n->ticket_number = verif_nd_size("recycle.ticket");
+		n->data = c09_nd_ptr("recycle.data");
+		n->next = (i + 1 < r) ? RN(i + 1) : NULL;
 	}
-	pool->recycle = r > 0 ? &g_rn[0] : NULL;
+	pool->recycle = r > 0 ? RN(0) : NULL;
 
 	pool->item_count = nt - ndt + s;
 
 	for (i = 0; i < NW; ++i) {
-		pool->workers[i].pool = pool;
-		pool->workers[i].user = c09_nd_ptr("worker.user");
+		g_pw.w[i].pool = pool;
+		g_pw.w[i].user = c09_nd_ptr("worker.user");
 	}
 }
 
 /*
- * shared part: what lock / cond_wait hand to the caller. A worker sees
- * arbitrary tickets counters; the submitting thread is the only writer of
- * next_ticket / next_dequeue_ticket, so for it they keep their values.
- * A non-zero status is never reset (rely condition on every other thread).
+ * Shared part: what lock / cond_wait hand to the caller: lengths, tickets,
+ * data, status, the tickets in other workers' hands all symbolic, constrained
+ * by INV only. A worker sees arbitrary ticket counters; the submitting thread
+ * is the only writer of next_ticket / next_dequeue_ticket, so for it they
+ * keep their values. A non-zero status is never reset (rely condition on
+ * every thread). The ghost set of other workers' tickets is kept sorted
+ * (a set has no order; this only removes symmetric copies).
  */
 static void c09_build_shared(void)
 {
 	thread_pool_impl_t *pool = POOL;
 	unsigned g = g_gen;
 	size_t q = verif_nd_size("qlen"), d = verif_nd_size("dlen");
-	size_t ow = verif_nd_size("other_workers_busy");
-	size_t nt, ndt, i, j, wl;
+	size_t w = verif_nd_size("other_workers_busy");
+	size_t nt, ndt, qfirst, i, j;
+	size_t wcap = g_is_main ? NW : NW - 1;
 	int status = verif_nd_int("status");
 
 	VERIF_ASSUME(g < NGEN);
@@ -403,16 +465,17 @@ static void c09_build_shared(void)
 	if (g == 0)
 		d = DLEN;
 #endif
-	VERIF_ASSUME(q <= KQ && d <= KD);
-	VERIF_ASSUME(ow <= (g_is_main ? NW : NW - 1));
+	VERIF_ASSUME(q <= KQ && d <= KD && w <= wcap);
 
 	if (g_is_main) {
 		nt = pool->next_ticket;
 		ndt = pool->next_dequeue_ticket;
+		VERIF_ASSUME(g_held == NULL);
 	} else {
 		nt = verif_nd_size("next_ticket");
 		ndt = verif_nd_size("next_dequeue_ticket");
-		VERIF_ASSUME(ndt <= nt && nt < (SIZE_MAX - 16));
+		/* fewer than 2^64 - 64 submissions in the life of a pool */
+		VERIF_ASSUME(ndt <= nt && nt < SIZE_MAX - 64);
 		pool->next_ticket = nt;
 		pool->next_dequeue_ticket = ndt;
 	}
@@ -420,87 +483,86 @@ static void c09_build_shared(void)
 		VERIF_ASSUME(status != 0);
 	pool->status = status;
 
+	/* queue: the run of tickets ending at nt - 1 */
 	for (i = 0; i < KQ; ++i) {
-		g_qn[g][i].ticket_number = verif_nd_size("queue.ticket");
-		g_qn[g][i].data = c09_nd_ptr("queue.data");
-		g_qn[g][i].next = (i + 1 < q) ? &g_qn[g][i + 1] : NULL;
-	}
-	pool->queue = q > 0 ? &g_qn[g][0] : NULL;
-	pool->queue_last = q > 0 ? &g_qn[g][q - 1] : NULL;
+		work_item_t *n = QN(g, i);
 
+		n->ticket_number = verif_nd_size("queue.ticket");
+		n->data = c09_nd_ptr("queue.data");
+		n->next = (i + 1 < q) ? QN(g, i + 1) : NULL;
+	}
+	for (i = 0; i < KQ; ++i) {
+		work_item_t *n = QN(g, i);
+
+		if (i + 1 < q)
+			VERIF_ASSUME(QN(g, i + 1)->ticket_number ==
+				     n->ticket_number + 1);
+		if (i + 1 == q)
+			VERIF_ASSUME(n->ticket_number + 1 == nt);
+		if (i < q)
+			VERIF_ASSUME(n->ticket_number != g_wt || n->data == g_wd);
+	}
+	pool->queue = q > 0 ? QN(g, 0) : NULL;
+	pool->queue_last = q > 0 ? QN(g, q - 1) : NULL;
+	qfirst = q > 0 ? QN(g, 0)->ticket_number : nt;
+	VERIF_ASSUME(ndt <= qfirst && qfirst <= nt);
+
+	/* done: strictly increasing, below the queue */
 	for (i = 0; i < KD; ++i) {
-		g_dn[g][i].ticket_number = verif_nd_size("done.ticket");
-		g_dn[g][i].data = c09_nd_ptr("done.data");
-		g_dn[g][i].next = (i + 1 < d) ? &g_dn[g][i + 1] : NULL;
-	}
-	pool->done = d > 0 ? &g_dn[g][0] : NULL;
+		work_item_t *n = DN(g, i);
 
-	g_ow_n = ow;
+		n->ticket_number = verif_nd_size("done.ticket");
+		n->data = c09_nd_ptr("done.data");
+		n->next = (i + 1 < d) ? DN(g, i + 1) : NULL;
+	}
+	for (i = 0; i < KD; ++i) {
+		work_item_t *n = DN(g, i);
+
+		if (i < d) {
+			VERIF_ASSUME(!(n->ticket_number < ndt) &&
+				     n->ticket_number < qfirst);
+			if (i + 1 < d)
+				VERIF_ASSUME(n->ticket_number <
+					     DN(g, i + 1)->ticket_number);
+			VERIF_ASSUME(n->ticket_number != g_wt || n->data == g_wd);
+			if (g_held != NULL)
+				VERIF_ASSUME(C09_NEQ(n->ticket_number,
+						     g_held->ticket_number));
+		}
+	}
+	pool->done = d > 0 ? DN(g, 0) : NULL;
+
+	/* tickets in the other workers' hands */
+	g_ow_n = w;
 	for (i = 0; i < NW; ++i)
 		g_ow[i] = verif_nd_size("other.ticket");
-
-	/* ---- INV as the precondition ---- */
-	for (i = 0; i < KQ; ++i) {
-		if (i < q) {
-			size_t t = g_qn[g][i].ticket_number;
-
-			VERIF_ASSUME(ndt <= t && t < nt);
-			if (i + 1 < q)
-				VERIF_ASSUME(t < g_qn[g][i + 1].ticket_number);
-			VERIF_ASSUME(t != g_wt || g_qn[g][i].data == g_wd);
-		}
-	}
-	for (i = 0; i < KD; ++i) {
-		if (i < d) {
-			size_t t = g_dn[g][i].ticket_number;
-
-			VERIF_ASSUME(ndt <= t && t < nt);
-			if (i + 1 < d)
-				VERIF_ASSUME(t < g_dn[g][i + 1].ticket_number);
-			if (q > 0)
-				VERIF_ASSUME(t < g_qn[g][0].ticket_number);
-			VERIF_ASSUME(t != g_wt || g_dn[g][i].data == g_wd);
-			if (g_held != NULL)
-				VERIF_ASSUME(t != g_held->ticket_number);
-		}
-	}
 	for (i = 0; i < NW; ++i) {
-		if (i < ow) {
-			size_t t = g_ow[i];
-
-			VERIF_ASSUME(ndt <= t && t < nt);
-			if (i + 1 < ow)
-				VERIF_ASSUME(t < g_ow[i + 1]);
-			if (q > 0)
-				VERIF_ASSUME(t < g_qn[g][0].ticket_number);
+		if (i < w) {
+			VERIF_ASSUME(!(g_ow[i] < ndt) && g_ow[i] < qfirst);
+			if (i + 1 < w)
+				VERIF_ASSUME(g_ow[i] < g_ow[i + 1]);
 			for (j = 0; j < KD; ++j) {
 				if (j < d)
-					VERIF_ASSUME(t != g_dn[g][j].ticket_number);
+					VERIF_ASSUME(C09_NEQ(g_ow[i],
+						     DN(g, j)->ticket_number));
 			}
 			if (g_held != NULL)
-				VERIF_ASSUME(t != g_held->ticket_number);
+				VERIF_ASSUME(C09_NEQ(g_ow[i], g_held->ticket_number));
 		}
 	}
-	wl = ow;
-	if (g_held != NULL) {
-		size_t t = g_held->ticket_number;
-
-		VERIF_ASSUME(ndt <= t && t < nt);
-		if (q > 0)
-			VERIF_ASSUME(t < g_qn[g][0].ticket_number);
-		wl += 1;
-	}
-	VERIF_ASSUME(q + d + wl == nt - ndt);
+	if (g_held != NULL)
+		VERIF_ASSUME(!(g_held->ticket_number < ndt) &&
+			     g_held->ticket_number < qfirst);
+	/* no gaps */
+	VERIF_ASSUME(d + w + (g_held != NULL ? 1 : 0) == qfirst - ndt);
 
 	/* ---- snapshot ---- */
 	s_qn = q;
 	s_dn = d;
-	for (i = 0; i < KQ; ++i)
-		s_q[i] = (i < q) ? &g_qn[g][i] : NULL;
-	s_q[KQ] = NULL;
-	for (i = 0; i < KD; ++i)
-		s_d[i] = (i < d) ? &g_dn[g][i] : NULL;
-	s_d[KD] = NULL;
+	for (i = 0; i < 4; ++i) {
+		s_q[i] = (i < q) ? QN(g, i) : NULL;
+		s_d[i] = (i < d) ? DN(g, i) : NULL;
+	}
 	s_status = status;
 	s_nt = nt;
 	s_ndt = ndt;
